@@ -47,6 +47,7 @@ pub fn generate(out: &mut Out, prop: &str, thorough: bool, seed: u64) {
         "C15" => client::gen_c15(out, &mut rng, thorough),
         "C16" => {
             client::gen_c16(out, &mut rng, thorough);
+            client::gen_c16_partial(out, &mut rng, thorough);
             netgen::gen_c16_sync(out, &mut rng, thorough)
         }
         "C17" => netgen::gen_c17(out, &mut rng, thorough),
